@@ -387,6 +387,20 @@ class Tracked {
   std::uint8_t _state;
 };
 
+// Move-only flavour of Tracked: Result<TrackedMO, E> is not copyable, which selects the library's move-only code paths.
+class TrackedMO final : public Tracked {
+ public:
+  TrackedMO() noexcept = default;
+  explicit TrackedMO(std::uint32_t id) noexcept : Tracked{id} {
+  }
+  explicit TrackedMO(const Bomb& b) : Tracked{b} {
+  }
+  TrackedMO(const TrackedMO&) = delete;
+  TrackedMO& operator=(const TrackedMO&) = delete;
+  TrackedMO(TrackedMO&&) noexcept = default;
+  TrackedMO& operator=(TrackedMO&&) noexcept = default;
+};
+
 inline long long TrackedLive() noexcept {
   return detail::gTrackedLive;
 }
